@@ -139,8 +139,9 @@ def greedy_reference(v, mn, mx, mcs, drop, strict):
 
 
 def run_tokenizer(auditok, valid, mn, mx, mcs, init_min=0, ims=0, mode=0, delivery="list", falsy=False):
-    frames = [(CFalsyFrame if falsy else CFrame)(i, bool(b)) for i, b in enumerate(valid)]
-    tk = auditok.StreamTokenizer(lambda f: f.valid, mn, mx, mcs, init_min=init_min, init_max_silence=ims, mode=mode)
+    frames = [(CFalsyFrame if (falsy is True or (falsy == "mixed" and i % 2 == 0)) else CFrame)(i, bool(b)) for i, b in enumerate(valid)]
+    val = (lambda f: True if f.valid else None) if falsy == "none-validator" else (lambda f: f.valid)
+    tk = auditok.StreamTokenizer(val, mn, mx, mcs, init_min=init_min, init_max_silence=ims, mode=mode)
     src = CSource(frames)
     if delivery == "list":
         toks = tk.tokenize(src)
